@@ -214,6 +214,133 @@ pub trait Oracle {
     }
 }
 
+/// Splits a driver step at the user transactions that were injected at lock points in the middle of it, so that an oracle
+/// which applies a step's transactions before looking at its callbacks and fragments sees everything in the order it
+/// happened: every returned sub-step has its injected transactions at the front. The first sub-step keeps the operation
+/// (and normally the fragment sent), later ones are empty waits; `connected` / `disconnected` go with the first.
+pub fn split_at_lock_updates(step: &Step) -> Vec<Step> {
+    let mut first_other: Option<u64> = None;
+    let mut note = |o: u64| first_other = Some(first_other.map(|f: u64| f.min(o)).unwrap_or(o));
+    for o in &step.callback_orders {
+        note(*o);
+    }
+    for r in &step.received {
+        note(r.order);
+    }
+    if step.sent.is_some() {
+        note(step.sent_order);
+    }
+    // begin_confirm .. end_confirm brackets stay whole: the lock point of the clearing lies inside the bracket (the
+    // application is told first, then the lock is taken), a transaction injected there counts as just before it
+    let mut open: Option<u64> = None;
+    let mut brackets: Vec<(u64, u64)> = Vec::new();
+    for (i, (_, cb)) in step.callbacks.iter().enumerate() {
+        let o = step.callback_orders.get(i).copied().unwrap_or(0);
+        match cb {
+            Cb::BeginConfirm => open = Some(o),
+            Cb::EndConfirm { .. } => {
+                if let Some(b) = open.take() {
+                    brackets.push((b, o));
+                }
+            }
+            _ => {}
+        }
+    }
+    // a fragment is written (under the database lock) before it is transmitted, and other lock points lie in between
+    // (get_events_info for the IIN): a transaction injected there happened after the fragment's contents were fixed, so it
+    // counts as just after the transmission
+    let mut write_windows: Vec<(u64, u64)> = Vec::new();
+    for r in &step.received {
+        let written = step
+            .timeline
+            .iter()
+            .filter_map(|tl| match tl {
+                TL::Lock(site, o)
+                    if *o < r.order && (*site == "write_unsolicited" || *site == "write_response_headers") =>
+                {
+                    Some(*o)
+                }
+                _ => None,
+            })
+            .max();
+        if let Some(w) = written {
+            if !step.received.iter().any(|x| x.order > w && x.order < r.order) {
+                write_windows.push((w, r.order));
+            }
+        }
+    }
+    // effective position of every injected transaction
+    let effective = |order: u64| -> u64 {
+        if let Some((b, _)) = brackets.iter().find(|(b, e)| order > *b && order < *e) {
+            return *b;
+        }
+        if let Some((_, tx)) = write_windows.iter().find(|(w, tx)| order > *w && order < *tx) {
+            return *tx + 1;
+        }
+        order
+    };
+    let mut cuts: Vec<u64> = Vec::new();
+    for tl in &step.timeline {
+        if let TL::Update { at_lock: true, order, .. } = tl {
+            if first_other.map(|f| *order > f).unwrap_or(false) {
+                cuts.push(effective(*order));
+            }
+        }
+    }
+    if cuts.is_empty() {
+        return vec![step.clone()];
+    }
+    cuts.sort();
+    cuts.dedup();
+    let n = cuts.len() + 1;
+    let part_of = |o: u64| cuts.iter().filter(|c| **c <= o).count();
+    let mut out: Vec<Step> = (0..n)
+        .map(|k| Step {
+            op_index: step.op_index,
+            op: if k == 0 { step.op.clone() } else { Op::Sleep(0) },
+            t_start: step.t_start,
+            t_end: step.t_end,
+            sent: None,
+            received: Vec::new(),
+            callbacks: Vec::new(),
+            callback_orders: Vec::new(),
+            sent_order: step.sent_order,
+            timeline: Vec::new(),
+            link_frames: if k == 0 { step.link_frames.clone() } else { Vec::new() },
+            // (the operation acts first, the outstation reacts: both marks belong to the first part)
+            connected: k == 0 && step.connected,
+            disconnected: k == 0 && step.disconnected,
+            link_up: step.link_up,
+        })
+        .collect();
+    if step.sent.is_some() {
+        // what the peer sent stays visible to the parts that follow it (a release is judged against the CONFIRM that caused it)
+        for k in part_of(step.sent_order)..n {
+            out[k].sent = step.sent.clone();
+        }
+    }
+    for r in &step.received {
+        out[part_of(r.order)].received.push(r.clone());
+    }
+    for (i, cb) in step.callbacks.iter().enumerate() {
+        let o = step.callback_orders.get(i).copied().unwrap_or(0);
+        let k = part_of(o);
+        out[k].callbacks.push(cb.clone());
+        out[k].callback_orders.push(o);
+    }
+    for tl in &step.timeline {
+        let o = match tl {
+            TL::Lock(_, o) => *o,
+            TL::Update { at_lock: true, order, .. } if first_other.map(|f| *order > f).unwrap_or(false) => {
+                effective(*order)
+            }
+            TL::Update { order, .. } => *order,
+        };
+        out[part_of(o)].timeline.push(tl.clone());
+    }
+    out
+}
+
 /// runs a second oracle alongside the main one on the same history; `keep` selects (and may re-label) the second oracle's
 /// violations that also violate the main property
 pub struct WithSecond<A: Oracle, B: Oracle> {
@@ -246,6 +373,8 @@ impl<A: Oracle, B: Oracle> Oracle for WithSecond<A, B> {
 
 struct LockQueue {
     pending: VecDeque<(String, u8, UpdateOp)>,
+    /// how many pending entries were queued before the operation now running (they have had their chance when it ends)
+    aged: usize,
     timeline: Vec<TL>,
     tracker: crate::verif::nodes::outstation::StaticTracker,
 }
@@ -292,6 +421,7 @@ pub async fn drive(sim: &Sim, case: &SoutCase, oracle: &mut dyn Oracle) -> RunSu
     let mut peer = PeerLink::new(true);
     let lockq: Arc<Mutex<LockQueue>> = Arc::new(Mutex::new(LockQueue {
         pending: VecDeque::new(),
+        aged: 0,
         timeline: Vec::new(),
         tracker: crate::verif::nodes::outstation::StaticTracker::new(&node.cfg),
     }));
@@ -311,6 +441,9 @@ pub async fn drive(sim: &Sim, case: &SoutCase, oracle: &mut dyn Oracle) -> RunSu
                 if matches {
                     if q.pending[i].1 == 0 {
                         let (_, _, op) = q.pending.remove(i).unwrap();
+                        if i < q.aged {
+                            q.aged -= 1;
+                        }
                         let (op, info) = { let tr = &mut q.tracker; db.transaction(|d| tr.apply(&op, d)) };
                         let t = crate::verif::kernel::current()
                             .map(|c| c.now_ms())
@@ -384,8 +517,14 @@ pub async fn drive(sim: &Sim, case: &SoutCase, oracle: &mut dyn Oracle) -> RunSu
         let mut disconnected = false;
         // leftovers queued for lock points that never came are applied now (a timed user actor)
         {
-            let leftovers: Vec<(String, u8, UpdateOp)> =
-                lockq.lock().unwrap().pending.drain(..).collect();
+            // (an update queued by the operation just before this one has not had an operation to fire in yet: it stays)
+            let leftovers: Vec<(String, u8, UpdateOp)> = {
+                let mut q = lockq.lock().unwrap();
+                let n = q.aged.min(q.pending.len());
+                let out: Vec<_> = q.pending.drain(..n).collect();
+                q.aged = q.pending.len();
+                out
+            };
             for (_, _, u) in leftovers {
                 let (u, info) = { let mut q = lockq.lock().unwrap(); let tr = &mut q.tracker; node.handle.transaction(|d| tr.apply(&u, d)) };
                 sim.log(|| format!("user transaction (queued for a lock point that did not come): {:?} -> {:?}", u, info));
